@@ -793,7 +793,7 @@ fn drive(run: &mut Run, cfg: &Value, rng: &mut Rng, len: usize, out: &mut Out) {
                 }
             }
             73..=80 => json!({"act":"tokfail","by":"env","args":{"on":rng.chance(1,2)}}),
-            81..=88 => json!({"act":"allow","by":rng.pick(&["gov","gov","gov2","u1"]),"args":{"gas":*rng.pick(&[-1i64,100,200,800,1000,GAS_TOP])}}),
+            81..=88 => json!({"act":"allow","by":rng.pick(&["gov","gov","gov2","u1"]),"args":{"gas":*rng.pick(&[-1i64,0,100,200,800,1000,GAS_TOP])}}),
             89..=92 => json!({"act":"update_admin","by":rng.pick(&["gov","gov2","u1"]),"args":{"new":rng.pick(&["gov","gov2","gov2","none"])}}),
             93..=94 => json!({"act":"migrate","by":"creator","args":{"gas":*rng.pick(&[-1i64,300,50])}}),
             96 => json!({"act":"donate","by":rng.pick(&USERS),"args":{"denom":d,"amt":rng.range(0,4)}}),
